@@ -5,6 +5,12 @@ open SophiaProofs.C07
 #print axioms iso_false_bcount
 #print axioms iso_false_ground
 #print axioms iso_relabel
+#print axioms repo_variant
+#print axioms iso_relabel_repo
+#print axioms iso_relabel_answers_true
+#print axioms certOk_sound
+#print axioms groundDiffers_sound
+#print axioms iso_fuel_mono
 #print axioms iso_relabel_partial
 #print axioms iso_relabel_witness
 #print axioms iso_relabel_fails_shallow
